@@ -845,3 +845,37 @@ def getters(ctx, P, S, rule="SCHEMA-GETTER"):
             ok = g.endswith("_get_" + pyname)
             if cls in ("TreeSequence",) or cls in CLS.values():
                 ctx.ob(rule, "getset|%s.%s" % (cls, pyname), ok, "python/_tskitmodule.c (%s)" % tname, "attribute `%s` -> %s" % (pyname, g))
+
+
+def subset_helpers(ctx, P, rule="SCHEMA-SUBSET"):
+    ctx.rule(rule, "the column compaction helpers used by keep_rows (subset_*_column) visit every row once (`j < num_rows`), keep a row "
+                   "iff keep[j], and the remap variants translate every non-NULL reference through id_map - the only conditions "
+                   "inside the loop are the keep test and `!= TSK_NULL` on the value being remapped (no shortcut may skip the "
+                   "lookup: references can point forwards)")
+    tu = P.tus["tables"]
+    names = [n for n in tu.funcs if re.fullmatch(r"subset_\w+_column", n)]
+    ctx.need(len(names) >= 6, "subset_*_column helpers (found %d)" % len(names))
+    for name in sorted(names):
+        fn = tu.funcs[name]
+        F = Facts(P, fn)
+        loops = [x for x in walk(fn.body) if x.k == "ForStmt"]
+        outer = loops[0] if loops else None
+        ok = outer is not None and estr(outer.kids[2]) == "(j < num_rows)" and estr(outer.kids[0]) == "(j = 0)"
+        ctx.ob(rule, "%s|loop" % name, ok, tu.loc(fn.node), "single pass j = 0 .. num_rows")
+        conds = [estr(x.kids[0]) for x in walk(fn.body) if x.k == "IfStmt"]
+        remap = "remap" in name
+        allowed = {"keep[j]"}
+        nullc = [c for c in conds if re.fullmatch(r"\((\w+) != TSK_NULL\)", c)]
+        other = [c for c in conds if c not in allowed and c not in nullc]
+        ok = "keep[j]" in conds and not other and (len(nullc) == 1 if remap else not nullc)
+        ctx.ob(rule, "%s|conditions" % name, ok, tu.loc(fn.node), "conditions inside the loop: %s" % conds if ok else
+               "conditions %s: only keep[j]%s may guard the compaction" % (conds, " and one `value != TSK_NULL`" if remap else ""))
+        if remap:
+            look = [(l, r, n) for l, o, r, n in F.assigns if re.fullmatch(r"id_map\[\w+\]", r)]
+            okl = len(look) == 1
+            if okl:
+                l, r, n = look[0]
+                v = re.fullmatch(r"id_map\[(\w+)\]", r).group(1)
+                enc = [estr(i.kids[0]) for i, br in F.enclosing_ifs(n)]
+                okl = l == v and enc[:1] == ["(%s != TSK_NULL)" % v] and set(enc[1:]) <= {"keep[j]"}
+            ctx.ob(rule, "%s|lookup" % name, okl, tu.loc(fn.node), "value = id_map[value] under exactly `value != TSK_NULL`; found %s" % [(l, r) for l, r, n in look])
